@@ -95,7 +95,14 @@ def main():
                 # replay every distinct failing check that came with values
                 reproduced = False
                 tried = 0
-                for (kind, desc, vals) in res.playback:
+                playback = list(res.playback)
+                if res.h.should_panic and not [p for p in playback if p[0] != "cover"]:
+                    # a "returned normally" witness in a should_panic harness is a cover trace
+                    playback = [("assertion", d, v) for (k, d, v) in playback if d in res.h.must_unsat]
+                if not res.h.schema and not [p for p in playback if p[0] != "cover"]:
+                    # harnesses whose native replay is exhaustive need no solver values
+                    playback = [("assertion", res.failed_checks[0][1] if res.failed_checks else "failed", [])]
+                for (kind, desc, vals) in playback:
                     if kind == "cover":
                         continue
                     decoded = core.decode_playback(res.h.schema, vals)
